@@ -199,7 +199,7 @@ def decide(spec, group, tier, seed, replay=None):
                 notes.append('search ran %d additional oracle cases' % len(extra))
 
             # shrink the first oracle failure
-            if orc_fails and not replay and not cases[orc_fails[0][0]].line.startswith('mp.'):
+            if orc_fails and not replay and not spec.get('no_shrink') and not cases[orc_fails[0][0]].line.startswith('mp.'):
                 i, why = orc_fails[0]
                 c = cases[i]
                 chk = c.check or all_zero
